@@ -30,6 +30,8 @@ import (
 type ProcessSet struct {
 	*Options
 	wg sync.WaitGroup
+	// watchers counts the running tracerProcess goroutines, the only senders of ps.mch
+	watchers sync.WaitGroup
 
 	sourceOptions []Option
 
@@ -99,11 +101,14 @@ func (ps *ProcessSet) Tracer() tracing.ITracer { return ps.tracer }
 func (ps *ProcessSet) Locator() data.IFlowDataLocator { return ps.locator }
 
 func (ps *ProcessSet) StartAll(ctx context.Context) error {
+	ps.watchers.Add(len(ps.executes))
 	go ps.run(ctx)
 
-	for _, process := range ps.executes {
+	for i, process := range ps.executes {
 		err := process.StartAll(ctx)
 		if err != nil {
+			// the watchers of this and the remaining processes are never started
+			ps.watchers.Add(i - len(ps.executes))
 			return fmt.Errorf("start process %s: %w", process.Id().String(), err)
 		}
 
@@ -166,6 +171,7 @@ func (ps *ProcessSet) run(ctx context.Context) {
 							continue
 						}
 						ps.wg.Add(1)
+						ps.watchers.Add(1)
 						go ps.tracerProcess(ctx, process, &ps.wg)
 					}
 					cancel, found := ps.triggerCatch(string(sourceRef.TargetRefField))
@@ -180,12 +186,35 @@ func (ps *ProcessSet) run(ctx context.Context) {
 			ps.tracer.Send(CeaseProcessSetTrace{Definitions: ps.definitions})
 			return
 		case <-ctx.Done():
-			return
+			// a throw that a watcher has announced will not be dealt with any more: it is
+			// written off, so that the goroutines waiting for the set's wait group end.
+			// The watchers stop with the context; until the last one has, ps.mch is read.
+			idle := make(chan struct{})
+			go func() {
+				ps.watchers.Wait()
+				close(idle)
+			}()
+			for {
+				select {
+				case <-ps.mch:
+					ps.wg.Done()
+				case <-idle:
+					for {
+						select {
+						case <-ps.mch:
+							ps.wg.Done()
+						default:
+							return
+						}
+					}
+				}
+			}
 		}
 	}
 }
 
 func (ps *ProcessSet) tracerProcess(ctx context.Context, process *Process, wg *sync.WaitGroup) {
+	defer ps.watchers.Done()
 	defer wg.Done()
 
 	traces := process.Tracer().Subscribe()
